@@ -100,6 +100,7 @@ pub struct Runner<'a> {
   prev: Vec<Option<ExecRec>>,
   ever_completed: Vec<bool>,
   stamps: Vec<Option<StampInfo>>,
+  stamp_seen: BTreeMap<u64, Option<Val>>,
   changed: BTreeSet<usize>,
   all_consistent: bool,
   last_td: Option<Vec<Tid>>,
@@ -157,7 +158,7 @@ impl<'a> Runner<'a> {
     let pie = Pie::with_tracker(CompositeTracker::new(Rec::new(true), CompositeTracker::new(EventTracker::default(), Rec::new(false))));
     let nres = prog.resources.len();
     Runner {
-      scn, prog, prop, pie, shadow: vec![None; nres], known: BTreeSet::new(), ledger: vec![None; n], prev: vec![None; n], ever_completed: vec![false; n], stamps: vec![None],
+      scn, prog, prop, pie, shadow: vec![None; nres], known: BTreeSet::new(), ledger: vec![None; n], prev: vec![None; n], ever_completed: vec![false; n], stamps: vec![None], stamp_seen: BTreeMap::new(),
       changed: BTreeSet::new(), all_consistent: true, last_td: None, last_bu_complete: false, session_no: 0, aborted_before: false, aborted_earlier: false, abort_dirty: false,
       vs: vec![], stats: Stats::default(), trace: 0xcbf2_9ce4_8422_2325, harness_error: None, reuse_and_exec: false, nontrivial: false, errors_fired: 0, crashes_fired: 0, td_after_abort_returned: 0, bu_nontrivial: false, diag_aborts: 0, trk_seen: 0,
     }
@@ -184,6 +185,7 @@ impl<'a> Runner<'a> {
       self.shadow[*r] = Some(*v);
     }
     self.changed.clear();
+    self.identity_probes();
     for (i, step) in scn.steps.iter().enumerate() {
       if self.vs.iter().any(|v| v.concerns(self.prop)) || self.vs.len() >= 4 || self.harness_error.is_some() { break; }
       fnv(&mut self.trace, i as u64 + 77);
@@ -451,6 +453,32 @@ impl<'a> Runner<'a> {
   }
 
 
+  /// Direct probes of trait-object equality across key families with identical representation, hash and Debug text.
+  fn identity_probes(&mut self) {
+    use std::hash::{Hash, Hasher};
+    let prog = self.prog.clone();
+    let tkeys: Vec<(TaskKey, Box<dyn KeyObj>)> = prog.tasks.iter().map(|t| (t.key, task_key_obj(t.key))).collect();
+    let rkeys: Vec<(ResKey, Box<dyn KeyObj>)> = prog.resources.iter().map(|r| (*r, res_key_obj(*r))).collect();
+    let h = |k: &dyn KeyObj| { let mut st = std::collections::hash_map::DefaultHasher::new(); k.hash(&mut st); st.finish() };
+    for (a, ka) in tkeys.iter() {
+      for (b, kb) in tkeys.iter() {
+        let eq = ka.as_ref() == kb.as_ref();
+        if eq != (a == b) { self.viol(&["C15"], "key-equality", 0, format!("task keys {:?} and {:?} compare equal = {eq} as trait objects", a, b)); return; }
+        if a == b && h(ka.as_ref()) != h(kb.as_ref()) { self.viol(&["C15"], "key-hash", 0, format!("equal task keys {:?} hash differently", a)); return; }
+      }
+      for (b, kb) in rkeys.iter() {
+        if ka.as_ref() == kb.as_ref() { self.viol(&["C15"], "key-equality", 0, format!("task key {:?} equals resource key {:?} as trait objects", a, b)); return; }
+      }
+    }
+    for (a, ka) in rkeys.iter() {
+      for (b, kb) in rkeys.iter() {
+        let eq = ka.as_ref() == kb.as_ref();
+        if eq != (a == b) { self.viol(&["C15"], "key-equality", 0, format!("resource keys {:?} and {:?} compare equal = {eq} as trait objects", a, b)); return; }
+      }
+    }
+    self.stats.hit("identity_probes");
+  }
+
   /// O8: the guarded store dump must equal the ledger of latest executions.
   fn check_store_dump(&mut self, step: usize) {
     use pie::verif::EdgeKind;
@@ -512,14 +540,16 @@ impl<'a> Runner<'a> {
         // Several accesses to one target with different checkers or kinds: only one can be recorded.
         let distinct = d.accesses.iter().any(|a| *a != d.accesses[0]);
         if distinct && rec.completed {
-          let sig = format!("multi-checker:{:?}", akind).to_lowercase();
+          let which = if ai == 0 { "first-kept" } else if ai + 1 == d.accesses.len() { "last-kept" } else { "middle-kept" };
+          let sig = format!("multi-checker:{:?}:{which}", akind).to_lowercase();
           problem = Some((format!("task {t} declared {} dependencies on {:?} with different checkers {:?}; the store keeps only one of them", d.accesses.len(), tkey, d.accesses), sig));
           break;
         }
       }
     }
     if let Some((msg, sig)) = problem {
-      let v = Violation::new(&["C08"], "store-dump", step, msg).with_sig(&sig);
+      let props: &[&str] = if sig.is_empty() { &["C08", "C15"] } else { &["C08", "C09"] };
+      let v = Violation::new(props, "store-dump", step, msg).with_sig(&sig);
       if self.vs.len() < 16 { self.vs.push(v); }
     }
   }
@@ -672,6 +702,7 @@ impl<'a> Runner<'a> {
     let mut trace = self.trace;
     let mut errors_seen: Vec<u32> = vec![];
     let mut cutoff = false;
+    let mut coarse_ignored = false;
     let mut order_candidates: Vec<(Tid, Tid)> = vec![];
 
     for (i, ev) in slice.iter().enumerate() {
@@ -861,6 +892,7 @@ impl<'a> Runner<'a> {
             OpK::Require => { v(&["C09"], "stamp-route", format!("a resource stamp of {:?} was taken during a require", res)); }
           }
           self.stamps[s] = Some(StampInfo { owner: Some(*owner), target: Target::Res(*res), kind, out: None });
+          self.stamp_seen.insert(*serial, seen.val);
           add_dep(&mut self.ledger, *owner, Target::Res(*res), kind, Some(*chk), None, *serial);
         }
         Ev::OStamp { serial, owner, chk, out } => {
@@ -883,6 +915,9 @@ impl<'a> Runner<'a> {
             _ => unreachable!(),
           };
           if let Verdict::Error(code) = verdict { errors_seen.push(code); }
+          if let Ev::RCheck { chk, verdict: Verdict::Consistent, now, serial, .. } = ev {
+            if !chk.is_exact() { if let Some(seen) = self.stamp_seen.get(serial) { if *seen != now.val { coarse_ignored = true; } } }
+          }
           fnv(&mut trace, 0xC00 + serial * 3 + matches!(verdict, Verdict::Consistent) as u64);
           let info = self.stamps.get(serial as usize).cloned().flatten();
           let Some(info) = info else {
@@ -1010,6 +1045,7 @@ impl<'a> Runner<'a> {
     }
     let _ = errors_seen;
     if cutoff { self.stats.hit("probe_early_cutoff"); }
+    if coarse_ignored { self.stats.hit("probe_coarse_ignored_change"); }
     if !executed.is_empty() { self.stats.add("executions", exec_count.iter().map(|c| *c as u64).sum()); }
     self.trace = trace;
     for vi in violations { if self.vs.len() < 16 { self.vs.push(vi); } }
@@ -1275,14 +1311,15 @@ impl<'a> Runner<'a> {
     out.harness_error = self.harness_error.take();
     out.trace_hash = self.trace;
     out.steps = with_sim(|s| s.log.len() as u64);
-    out.stats = std::mem::take(&mut self.stats);
     out.nontrivial = match self.prop {
       "C03" | "C04" => self.bu_nontrivial,
       "C18" => self.errors_fired > 0,
       "C19" => self.crashes_fired > 0 && self.td_after_abort_returned > 0,
       "C05" | "C06" | "C07" | "C20" => self.diag_aborts > 0 || self.reuse_and_exec,
+      "C09" => self.reuse_and_exec && self.stats.get("probe_coarse_ignored_change") > 0,
       _ => self.reuse_and_exec,
     };
+    out.stats = std::mem::take(&mut self.stats);
     out
   }
 }
@@ -1296,7 +1333,9 @@ pub fn task_key_obj(k: TaskKey) -> Box<dyn KeyObj> {
     1 => Box::new(T::<1>(k.id)),
     2 => Box::new(Box::new(T::<2>(k.id))),
     3 => Box::new(std::rc::Rc::new(T::<3>(k.id))),
-    _ => Box::new(std::sync::Arc::new(T::<4>(k.id))),
+    4 => Box::new(std::sync::Arc::new(T::<4>(k.id))),
+    5 => Box::new(Box::new(T::<0>(k.id))),
+    _ => Box::new(std::rc::Rc::new(T::<0>(k.id))),
   }
 }
 
